@@ -235,6 +235,20 @@ def run(props, tier, seed):
                         if os.path.exists(outp) and os.path.exists(libp):
                             a, l = open(outp).read(), open(libp).read()
                             b.check('C17.detect.same-output-as-library', a == l, w, 'cli %r library %r' % (a[:200], l[:200]))
+                        if os.path.exists(outp) and extra == ['--index']:
+                            # independent of the writer: the row numbers in the file are the (1-based) positions, in the
+                            # input file, of the records the library's in-memory detection reports as failing
+                            try:
+                                mem = detect_df(load_df(path), tight, per_constraint=True, output_fields=[], report='records')
+                                det = mem.detected()
+                                want = [int(i) + 1 for i in det.index] if det is not None else []
+                                got = pd.read_csv(outp)
+                                rn = [c for c in got.columns if c in ('RowNumber', 'Index')]
+                                have = [int(x) for x in got[rn[0]]] if rn else None
+                                b.check('C17.detect.same-output-as-library', have == want, w,
+                                        'row numbers written %r; failing records are at rows %r of the input' % (have, want))
+                            except Exception as e:
+                                b.check('C17.library.detect.noraise', False, w, repr(e)[:200])
                 # ---------------- detect to standard output ('-' as the output file, as documented) ----------------
                 argv = ['detect', path, tight, '-']
                 w = dict(w0, argv=argv)
@@ -282,11 +296,18 @@ def run(props, tier, seed):
                 (['verify', good, os.path.join(top, 'missing.tdda')], None),
                 (['detect', good, os.path.join(top, 'missing.tdda'), os.path.join(top, 'e2.csv')], 'e2.csv'),
                 (['detect', os.path.join(top, 'missing.csv'), good_tdda, os.path.join(top, 'e3.csv')], 'e3.csv'),
+                # a missing input whose name has no extension any reader claims
+                (['verify', os.path.join(top, 'missing.txt'), good_tdda], None),
+                (['discover', os.path.join(top, 'missing.dat'), os.path.join(top, 'e10.tdda')], 'e10.tdda'),
+                (['detect', os.path.join(top, 'missing'), good_tdda, os.path.join(top, 'e11.csv')], 'e11.csv'),
                 (['discover', '--bogus', good, os.path.join(top, 'e4.tdda')], 'e4.tdda'),
                 (['verify', '--bogus', good, good_tdda], None),
                 (['detect', '--bogus', good, good_tdda, os.path.join(top, 'e5.csv')], 'e5.csv'),
                 (['detect', '--per-constraint', '--no-per-constraint', good, good_tdda, os.path.join(top, 'e6.csv')], 'e6.csv'),
-                (['detect', good, good_tdda, os.path.join(top, 'e7.csv'), '--no-output-fields', '--output-fields', 'i'], 'e7.csv')):
+                (['detect', good, good_tdda, os.path.join(top, 'e7.csv'), '--no-output-fields', '--output-fields', 'i'], 'e7.csv'),
+                # --output-fields without names means "all of them": as contradictory with --no-output-fields as a list is
+                (['detect', good, good_tdda, os.path.join(top, 'e8.csv'), '--no-output-fields', '--output-fields'], 'e8.csv'),
+                (['detect', good, good_tdda, os.path.join(top, 'e9.csv'), '--output-fields', '--no-output-fields'], 'e9.csv')):
             w = {'argv': argv}
             b.case(('cli-error', tuple(argv)))
             code, out, err, exc = run_cli(argv)
